@@ -112,6 +112,11 @@ func runJob(ctx context.Context, wr *wWriter, j int, jb wJob, ids []githash.Hash
 				tg = append(tg, mustHash(cur[p-1].ID))
 			} else if p >= 1 && p < len(ids) {
 				tg = append(tg, ids[p])
+			} else if p == 0 {
+				// an existing commit that is not an RSL entry (the same one every time)
+				empty, _ := h.S.Handle().EmptyTree()
+				nc, _ := h.S.MakeCommitWithSigAt(empty, nil, "an ordinary commit, not an RSL entry", "", 1600000000)
+				tg = append(tg, nc)
 			} else {
 				tg = append(tg, conc.FakeHash(fmt.Sprintf("not-an-entry-%d", p)))
 			}
